@@ -40,25 +40,28 @@ META = {
                  'correspondence against load_tasks/TaskControl/CLI + statement monitor on the real Task objects',
     'design_ref': '§5 C18, §4 M6',
     'level_text': 'Machine-checked over the loader model for all namespaces of creators (dicts, generators nested to any '
-                  'depth, Task objects, None/other; any attribute values): an accepted load has pairwise distinct '
-                  'names, every task_dep/setup/calc_dep/getargs name defined, distinct targets (wellformed_partial, '
+                  'depth, Task objects, None/other; any attribute values): loading never raises anything but '
+                  'InvalidTask/InvalidDodoFile (total, full strength); an accepted load has pairwise distinct names, every '
+                  'task_dep/setup/calc_dep/getargs name defined, distinct targets (wellformed_partial, '
                   'references_are_checked), tasks in definition order of a stable line sort (definition_order, '
-                  'creators_sorted_stably), every sub-task attached to a has_subtask group whose task_dep contains the '
-                  'sub-tasks in yield order (wellformed_groups_partial, hypothesis Tidy); every unknown field, value '
-                  'rejected by Task.valid_attr, missing actions/name, non-task result, command-named creator, duplicate '
-                  'name/target and dangling reference is rejected (accepted_results_valid, rejects_at_control, '
-                  'rejects_duplicate_in_generator); an internal exception arises only from three characterised dict '
-                  'shapes (total_partial, hypothesis Safe).  Task.valid_attr and the set of check_attr calls are '
-                  're-read from the imported doit and re-proved equal to the model on every run.  The model is tied to '
-                  'doit by diffing outcome class, task order and dependency fields against the real loader, '
+                  'creators_sorted_stably), no non-sub-task named like a command (rejects_command_names), every sub-task '
+                  'attached to a has_subtask group whose task_dep contains the sub-tasks in yield order '
+                  '(wellformed_groups_partial, hypothesis Tidy); every unknown field, value rejected by Task.valid_attr '
+                  '(type-exact), missing actions/name, non-string basename, non-task result, duplicate name/target and '
+                  'dangling reference is rejected (accepted_results_valid, rejects_at_control, '
+                  'rejects_duplicate_in_generator, rejects_wrong_type_partial).  Task.valid_attr and the set of check_attr '
+                  'calls are re-read from the imported doit and re-proved equal to the model on every run.  The model '
+                  'is tied to doit by diffing outcome class, task order and dependency fields against the real loader, '
                   'TaskControl and the CLI (list, run).',
-    'level_note': 'total / wellformed (group clause) / rejects-wrong-type hold only as *_partial on the current tree; the '
-                  'missing parts are exactly the open findings, each proved as a counterexample theorem '
-                  '(total_counterexample, crash_*, wellformed_counterexample, rejects_wrong_type_counterexample, '
-                  'accepts_*) and replayed on the implementation (corpus/C18).  The monitor is a Python predicate over '
-                  'the real Task objects / exception / exit code + stderr.  Values are abstracted to their top-level '
-                  'type with string items; hand-marked Task objects (subtask_of set by the creator) are outside the '
-                  'group clause.  Hypotheses Safe/Tidy are evaluated by the driver on every case (distribution hyp:*).',
+    'level_note': 'wellformed (group clause) and rejects-wrong-type hold only as *_partial on the current tree; the '
+                  'missing parts are exactly the open findings yield-replaces-task, coerced-getargs-falsy, '
+                  'coerced-subtask-name, group-attrs-actions-ignored, each proved as a counterexample theorem '
+                  '(wellformed_counterexample, rejects_wrong_type_counterexample, accepts_*) and replayed on the '
+                  'implementation (corpus/C18).  The behaviours repaired by 5a43f74/379257a/5cc6c19/eeaaa80 are kept as '
+                  'pinned_* counterexample theorems.  The monitor is a Python predicate over the real Task objects / '
+                  'exception / exit code + stderr.  Values are abstracted to their top-level type with string items; '
+                  'hand-marked Task objects (subtask_of set by the creator) are outside the group clause.  Hypothesis '
+                  'Tidy is evaluated by the driver on every case (distribution hyp:Tidy).',
     'rule': 'creators (function / create_doit_tasks object / with basename attribute, permuted definition lines) '
             'returning dict | generator (nested up to depth 2) | Task | None | other; dicts from doit\'s attribute '
             'vocabulary, mostly valid, with at most a few seeded defects (wrong top-level type incl. True/False/0/1/1.0 '
@@ -89,32 +92,6 @@ def _val(d, attr):
 
 def _reason(w):
     return (w or {}).get('reason', '')
-
-
-def _sig_clean(w):
-    return (_reason(w).startswith('crash:TypeError@task.py:__init__')
-            and any(_val(d, 'clean') in (['int', 1], ['float', 2]) for d in _dicts(w['case'])))
-
-
-def _sig_unhashable(w):
-    if _reason(w) != 'crash:TypeError@loader.py:_generate_task_from_yield':
-        return False
-    for _, how, d in L._walk_dicts(w['case']):
-        b = _val(d, 'basename')
-        if how == 'yield' and b is not None and b[0] in ('list', 'dict') and len(b[1]) > 0:
-            return True
-    return False
-
-
-def _sig_uptodate_tuple(w):
-    if _reason(w) != 'crash:AttributeError@task.py:__init__':
-        return False
-    for d in _dicts(w['case']):
-        u, g = _val(d, 'uptodate'), _val(d, 'getargs')
-        if (u is not None and u[0] == 'tuple' and len(u[1]) > 0 and g is not None and g[0] == 'dict'
-                and len(g[1]) > 0):
-            return True
-    return False
 
 
 def replacing_yield(case):
@@ -154,16 +131,6 @@ def _sig_replace(w):
             and replacing_yield(w['case']))
 
 
-def _sig_cmd_basename(w):
-    if _reason(w) != 'accepted:command-name':
-        return False
-    cmds = w.get('cmds', [])
-    if any(c['name'] in cmds for c in w['case']['creators']):
-        return False
-    return any((_val(d, 'basename') or ['none'])[0] == 'str' and _val(d, 'basename')[1] in cmds
-               for d in _dicts(w['case']))
-
-
 def _wrong_type_reason(w, attr):
     r = _reason(w)
     pre = 'accepted:wrong-type:%s:' % attr
@@ -175,21 +142,11 @@ def _wrong_type_reason(w, attr):
         return None
 
 
-def _sig_verbosity(w):
-    v = _wrong_type_reason(w, 'verbosity')
-    return v in (['bool', True], ['bool', False], ['float', 0], ['float', 2], ['float', 4])
-
-
 FALSY = (['bool', False], ['int', 0], ['float', 0], ['str', ''], ['list', []], ['tuple', []], ['dict', []])
 
 
 def _sig_getargs(w):
     return _wrong_type_reason(w, 'getargs') in FALSY
-
-
-def _sig_basename_falsy(w):
-    v = _wrong_type_reason(w, 'basename')
-    return v in FALSY + (['none'],) and w.get('where') in ('yield-with-name', 'yield-group-attrs')
 
 
 def _sig_subname(w):
@@ -203,14 +160,8 @@ def _sig_group_actions(w):
 
 SIGNATURES = {
     'group-attrs-actions-ignored': _sig_group_actions,
-    'crash-clean-eq-true': _sig_clean,
-    'crash-unhashable-basename': _sig_unhashable,
-    'crash-uptodate-tuple-getargs': _sig_uptodate_tuple,
     'yield-replaces-task': _sig_replace,
-    'command-name-as-basename': _sig_cmd_basename,
-    'coerced-verbosity': _sig_verbosity,
     'coerced-getargs-falsy': _sig_getargs,
-    'coerced-basename-falsy': _sig_basename_falsy,
     'coerced-subtask-name': _sig_subname,
 }
 
@@ -817,11 +768,7 @@ def check_case(st, case, tags, model_ans, with_cli, workdir, shrunk_reasons):
         if any(len(t['task_dep']) > 0 and t['file_dep'] for t in api['control']['tasks']):
             st.count('has-file-dep+task-dep')
     # hypotheses of the partial theorems, evaluated by the driver on this case
-    st.count('hyp:Safe=%s' % model_ans.get('safe'))
     st.count('hyp:Tidy=%s' % model_ans.get('tidy'))
-    if model_ans.get('safe') and api['control']['out'] == 'crash':
-        st.divergence({'case': case, 'impl': api['control']},
-                      'theorem total_partial does not transfer: Safe case crashes the implementation')
     # (K)
     for level in ('load', 'control'):
         dif = L.diff_level(model_ans[level], api[level], level)
